@@ -25,6 +25,7 @@ TH_SESSION = ['RB.Denoise.c20_restore_once', 'RB.Denoise.c20_noD_silent',
 TH_PAR = ['RB.Denoise.c20_par_restore_once', 'RB.Denoise.c20_interleave_perm']
 TH_DPY = ['RB.Denoise.c20_denoise_restore_undoes', 'RB.Denoise.c20_denoise_roundtrip_standard',
           'RB.Denoise.c20_denoise_restore_only_to_standard', 'RB.Denoise.c20_denoise_shield_reset_only_if_reported']
+TH_EXEC = ['RB.Denoise.c20_flags_roundtrip', 'RB.Denoise.c20_exec_as_granted', 'RB.Denoise.c20_exec_both']
 TH_WRAP = ['RB.Denoise.c20_wrap_spec', 'RB.Denoise.c20_wrap_none', 'RB.Denoise.c20_caps_as_reported']
 TH_SHIELD = ['RB.Denoise.c20_shield_range', 'RB.Denoise.c20_shield_range_real', 'RB.Denoise.c20_shieldLo_is_floor_log',
              'RB.Denoise.c20_shield_within_cores']
@@ -493,6 +494,71 @@ def check_cli(ck, scenarios):
                         {'trace': head, 'ending': ending}, ans, TH_SESSION)
 
 
+# ------------------------------------------------- the exec side: `denoise.py … exec -- cmd`
+def gen_exec_cases(ck):
+    rng = ck.rng
+    out = []
+    for nice, shield in ((True, True), (True, False), (False, True)):
+        for cset_mode in ('path', 'lookup', 'none'):
+            for prof in (False, True):
+                out.append({'kind': 'exec', 'nice': nice, 'shield': shield, 'cset_mode': cset_mode, 'profiling': prof,
+                            'num_cores': rng.choice([1, 2, 4, 8, 64]),
+                            'cmd': rng.choice([['/x/exe', 'h', 'B1', '1'], ['perf', 'record', '-g', '/x/exe', 'h'],
+                                               ['/x/exe', '--', '-n', 'nice'], ['sudo', 'exe', 'h']])})
+    return out
+
+
+def check_exec(ck, cases):
+    """the wrapper's flags -> the real argument parser and `_exec` of denoise.py (sandboxed, `os.execvpe`
+    recorded, nothing executed) -> the argv the benchmark is finally started with"""
+    import drive_denoise_py as dpy
+    from rebench.denoise import paths as denoise_paths
+    denoise_path = denoise_paths.get_denoise()
+    ops, recs = [], []
+    for sc in cases:
+        cset = '/usr/bin/cset' if sc['cset_mode'] == 'path' else None
+        lookup = '/usr/bin/cset' if sc['cset_mode'] == 'lookup' else None
+        rep = {'kind': 'json', 'nice': 'yes' if sc['nice'] else 'no', 'shield': 'yes' if sc['shield'] else 'no',
+               'others': []}
+        sc2 = {'report': rep, 'no_denoise': False, 'cset': cset, 'profiling': sc['profiling'],
+               'num_cores': sc['num_cores']}
+        prefix = expected_prefix(sc2, {}, denoise_path)       # the property's wrapper, without `sudo`
+        argv = prefix[1:] + sc['cmd']
+        r = dpy.call_exec(argv, lookup_cset=lookup)
+        ck.impl_traces += 1
+        inp = dict(sc)
+        ck.count('exec:nice=%s shield=%s cset=%s' % (sc['nice'], sc['shield'], sc['cset_mode']))
+        if 'crash' in r or 'exec' not in r:
+            ck.oracle_fail('exec_as_granted', inp, r, {'what': 'no exec'})
+            continue
+        got = r['exec']['argv']
+        shielded = sc['shield'] and sc['cset_mode'] != 'none'
+        want = (['/usr/bin/cset', 'shield', '--exec', '--'] if shielded else []) + \
+            (['nice', '-n-20'] if sc['nice'] else []) + sc['cmd']
+        if got != want or r['exec']['cmd'] != want[0]:
+            ck.oracle_fail('exec_as_granted', inp, {'expected_argv': want, 'observed_argv': got, 'wrapper': argv},
+                           {'nice': sc['nice'], 'shield': sc['shield']})
+        n = sc['num_cores']
+        want_cs = '%d-%d' % (int(math.floor(math.log(n))), n - 1) if shielded else None
+        if r['exec']['core_set'] != want_cs:
+            ck.oracle_fail('exec_as_granted', inp, {'expected_core_set': want_cs, 'observed': r['exec']['core_set']},
+                           {'what': 'core set'})
+        if not r['exec']['env_kept']:
+            ck.oracle_fail('env_forwarded', inp, {'exec': r['exec']}, {'what': 'denoise exec dropped the environment'})
+        ops.append({'op': 'c20.exec', 'use_nice': sc['nice'], 'use_shielding': sc['shield'], 'profiling': sc['profiling'],
+                    'cset': cset, 'lookup': lookup, 'denoise': denoise_path, 'num_cores': str(n), 'n': n,
+                    'cmd': sc['cmd']})
+        recs.append((inp, prefix, r))
+        ck.case(nontrivial_key=('exec', json.dumps(sc, sort_keys=True)))
+    for (inp, prefix, r), ans in zip(recs, ck.model(ops)):
+        m_cs = None if ans['core_set'] is None else '%d-%d' % tuple(ans['core_set'])
+        flags = prefix[2:prefix.index('--num-cores')]
+        if ans['argv'] != r['exec']['argv'] or m_cs != r['exec']['core_set'] or ans['flag_words'] != flags:
+            ck.disagree('c20.exec: denoise.py exec (argument parser + _exec) vs RB.Denoise.execArgv', inp,
+                        {'argv': r['exec']['argv'], 'core_set': r['exec']['core_set'], 'flags': flags},
+                        {'argv': ans['argv'], 'core_set': m_cs, 'flags': ans['flag_words']}, TH_EXEC)
+
+
 # ------------------------------------------------------ denoise.py itself
 STANDARD = {'no_turbo': '0', 'perf_max_percent': '25', 'perf_sample_rate': '50000', 'perf_paranoid': '3',
             'shield': 'off'}      # docs/denoise.md: "the presumed standard state"; governors: powersave
@@ -612,6 +678,96 @@ def check_denoise_py(ck, cases):
             ck.disagree('c20.denoise_minimize: _minimize_noise vs RB.Denoise.minimizeActs', inp, om, am, TH_DPY)
         if ar != orr:
             ck.disagree('c20.denoise_restore: _restore_standard_settings vs RB.Denoise.restoreActs', inp, orr, ar, TH_DPY)
+
+
+# ------------------------------------- signals that arrive between two benchmark processes
+def gen_signal_scenarios(ck, quick):
+    rng = ck.rng
+    reps = [r for r in all_reports() if r['kind'] == 'json' and settings_changed(r)]
+    out = []
+    for sched, cpu in (('batch', 1), ('round-robin', 1), ('random', 1), ('batch', 8), ('round-robin', 5)):
+        for sig in ('SIGTERM', 'SIGINT'):
+            for at in ((1, 2, 3, 4) if sig == 'SIGTERM' else (1, rng.choice([2, 3, 4]))):
+                if cpu > 1 and quick and at == 3:
+                    continue
+                out.append({'kind': 'signal', 'report': rng.choice(reps), 'scheduler': sched, 'cpu_count': cpu,
+                            'signal': sig, 'at': at, 'profiling': False, 'no_denoise': False, 'env': rng.choice(ENVS),
+                            'cset': None, 'num_cores': 4,
+                            'path': '%s-%s%s' % (sig.lower(), 'before-first-process' if at == 1 else 'between-invocations',
+                                                 '-parallel' if cpu > 1 else '')})
+    return out
+
+
+def check_signals(ck, scenarios):
+    """SIGTERM / SIGINT delivered while ReBench is *not* waiting for a benchmark process (before the
+    first one, between two: while a result is parsed and recorded), on every scheduler, in a forked
+    child with the signal dispositions of a fresh process"""
+    import signal
+    ops, recs = [], []
+    for sc in scenarios:
+        _counter[0] += 1
+        wd = os.path.join(ck.scratch, 'sig%d' % _counter[0])
+        os.makedirs(wd)
+        with open(os.path.join(wd, 'sig_adapter.py'), 'w') as f:
+            f.write(dd.SIG_ADAPTER)
+        cfg = {'default_experiment': 'T', 'default_data_file': 't.data',
+               'runs': {'invocations': 2, 'min_iteration_time': 0, 'execute_exclusively': sc['cpu_count'] == 1},
+               'benchmark_suites': {'S': {'gauge_adapter': {'SigAdapter': './sig_adapter.py'},
+                                          'command': 'h %(benchmark)s %(invocation)s', 'benchmarks': ['B1', 'B2', 'B3']}},
+               'executors': {'E': {'path': '.', 'executable': 'exe'}},
+               'experiments': {'T': {'suites': ['S'], 'executions': ['E']}}}
+        if sc['env']:
+            cfg['runs']['env'] = dict(sc['env'])
+        conf = drive.write_config(wd, cfg)
+
+        def script(rec):
+            o = drive.Outcome(0, 'B: iterations=1 runtime: 5ms\n')
+            o.delay = 0.03
+            return o
+        r = dd.run_forked_session(wd, [conf, '-s', sc['scheduler']], script, sc['report'], sig_at=sc['at'],
+                                  sig=getattr(signal, sc['signal']), cpu_count=sc['cpu_count'],
+                                  num_cores=sc['num_cores'])
+        ck.impl_traces += 1
+        inp = dict(sc)
+        if r['exit'] == 5 or (r['done'] is None and r['signal'] is None):
+            raise lib.InfraError('forked session failed: %r' % (r,))
+        ending = 'killed-by-signal-%s' % r['signal'] if r['signal'] is not None else \
+            {'ok': 'ok', 'failed': 'failed', 'aborted': 'interrupt', 'ui_error': 'ui_error'}.get(r['done'][1], 'crash')
+        ck.count('signal:%s:%s->%s' % (sc['scheduler'] + ('/parallel' if sc['cpu_count'] > 1 else ''), sc['path'],
+                                       ending))
+        delivered = any(e[0] == 'signal' for e in r['events'])
+        trace = []
+        for e in r['events']:
+            if e[0] == 'sudo':
+                if e[1] == 'minimize':
+                    trace.append({'t': 'minimize', 'profiling': '--for-profiling' in e[2]})
+                elif e[1] == 'restore':
+                    trace.append({'t': 'restore', 'without_shielding': '--without-shielding' in e[2],
+                                  'without_nice': '--without-nice' in e[2]})
+                elif e[1] == 'kill':
+                    trace.append({'t': 'kill', 'i': e[4] if len(e) > 4 and e[4] is not None else 0})
+            elif e[0] == 'start':
+                trace.append({'t': 'start', 'i': e[1]})
+            elif e[0] == 'stop':
+                trace.append({'t': 'stop', 'i': e[1], 'how': e[2]})
+        sudo = [(e[1], e[2]) for e in r['events'] if e[0] == 'sudo']
+        trace_oracle(ck, inp, dict(sc, kind='parallel' if sc['cpu_count'] > 1 else 'session'), trace, sudo, ending,
+                     sc['num_cores'])
+        if delivered and ending not in ('interrupt',) and not ending.startswith('killed'):
+            ck.count('signal:delivered-after-all-work')
+        if sc['cpu_count'] == 1:
+            head = [dict((k, v) for k, v in t.items() if k != 'how') for t in trace]
+            body = [{'t': t['t'], 'i': t['i']} for t in head if t['t'] in ('start', 'stop', 'kill')]
+            ops.append({'op': 'c20.session', 'no_denoise': False, 'profiling': False, 'report': sc['report'],
+                        'body': {'trace': body, 'ending': 'interrupt' if delivered else ending}})
+            recs.append((inp, head, ending))
+        ck.case(nontrivial_key=('sig', json.dumps(sc, sort_keys=True)),
+                sample={'signal': sc['path'], 'ending': ending} if _counter[0] % 17 == 0 else None)
+    for (inp, head, ending), ans in zip(recs, ck.model(ops)):
+        if ans.get('trace') != head or (ans.get('ending') != ending and not ending.startswith('killed')) \
+                or ending.startswith('killed'):
+            ck.disagree('c20.session: signal between two benchmark processes vs RB.Denoise.session', inp,
+                        {'trace': head, 'ending': ending}, ans, TH_SESSION)
 
 
 # ------------------------------------------------------- parallel scheduler
@@ -797,6 +953,12 @@ def dispatch(ck, inputs):
     sess = [i for i in inputs if i['kind'] == 'session']
     for i in range(0, len(sess), 120):
         check_sessions(ck, sess[i:i + 120])
+    sg = [i for i in inputs if i['kind'] == 'signal']
+    if sg:
+        check_signals(ck, sg)
+    ex = [i for i in inputs if i['kind'] == 'exec']
+    if ex:
+        check_exec(ck, ex)
     dp = [i for i in inputs if i['kind'] == 'denoise_py']
     for i in range(0, len(dp), 400):
         check_denoise_py(ck, dp[i:i + 400])
@@ -835,6 +997,8 @@ def run(ck):
     except ImportError:
         pass
     dispatch(ck, gen_denoise_py_cases(ck, 300))
+    dispatch(ck, gen_exec_cases(ck))
+    dispatch(ck, gen_signal_scenarios(ck, quick))
     if not quick:
         dispatch(ck, gen_denoise_py_cases(ck, 0, exhaustive=True))
     check_shield(ck, 4096)
